@@ -303,7 +303,11 @@ func cliCorpusPass(c *Ctx, name string, lines []string, fsets []Flags, shardFlag
 			os.WriteFile(filepath.Join(dir, "out.log"), []byte(strings.Repeat("{\"stale\":\"line of an earlier run\"}\n", (4*in.Len()+200000)/40)), 0o644)
 			args = append(args, "--outputFile", filepath.Join(dir, "out.log"))
 		}
-		res, err := runCLI(CLIRun{Bin: c.CLI, Args: args, Dir: dir})
+		run := CLIRun{Bin: c.CLI, Args: args, Dir: dir}
+		if fi%3 == 2 {
+			run.Env = []string{"LANG=en_US.UTF-8", "LC_ALL=en_US.UTF-8"} // the others run under LANG=C
+		}
+		res, err := runCLI(run)
 		if err != nil {
 			c.HarnessError("CLI corpus run: %v", err)
 			return
